@@ -88,6 +88,17 @@ P = {
                   "TraceTxn.tla folds them (legality of each event, result = cache contents, equal sequences) after a FIFO marker barrier.",
              note="Trusted: TLC; the marker barrier (a later event proves the earlier ones were delivered). Buffer overflow and reconnect purges are outside the statement.",
              tech="TLC model checking of Events.tla + TLC trace validation of recorded handler callbacks"),
+ "C18": dict(engine="tla-locks", cat="model_checking", ref="6 C18",
+             text="Locks.tla models the client's mutexes (Go RWMutex semantics incl. writer preference) and each call as a sequence of lock steps; TLC "
+                  "checks that no interleaving deadlocks and nothing keeps a lock, for the documented protocol (and refutes the three protocols of the "
+                  "pinned commit) and for the protocol extracted from client/client.go by a source walker (every mutex operation per function and return "
+                  "path, callees inlined; every multiset of three entry points; declared lock order). TLC-enumerated call sequences (each API call failing "
+                  "in each way it can, then further calls) and three gated races run on a real client with a deadline per call, judged by TraceCalls.tla; "
+                  "readers on every cache read path, API calls, a writer, monitor set-up and connection churn run under the race detector with rows that "
+                  "carry one version in all fields.",
+             note="Trusted: TLC, the source walker (it refuses to answer when it meets a construct it does not know; Transact's reconnect wait loop is left to "
+                  "the dynamic runs), the 10 s deadline, the Go race detector (reports touching client or cache).",
+             tech="TLC model checking of Locks.tla (documented and source-extracted protocol) + gated call-sequence replay + TLC trace validation + race detector"),
  "C15": dict(engine="tla-txn", cat="model_checking", text=TXN_TEXT, note=TXN_NOTE, ref="6 C15",
              tech="type-directed name expansion in Txn.tla judging recorded transactions with named inserts"),
 }
@@ -97,6 +108,7 @@ ENGINES = {
  "tla-cond": ("spec/Cond.tla", "RFC 7047 condition semantics in TLA+, enumeration of condition cases, validation of cache/select/API selections"),
  "tla-session": ("spec/Session.tla", "TLA+ model of monitor set-up vs notify/commit (Session.tla), schedules forced with pause points, sessions validated by TraceTxn.tla"),
  "tla-diff": ("spec/Diff.tla", "TLA+ difference algebra and update aggregation (Diff.tla, Merge.tla) + enumerate-and-replay through the updates package"),
+ "tla-locks": ("spec/Locks.tla", "TLA+ model of the client's lock protocol, fed both by the documented steps and by steps extracted from client.go; call sequences and gated races on a real client"),
  "tla-cache": ("spec/Cache.tla", "TLA+ state machine of the row cache's index maintenance + enumerate-and-replay + TLC trace validation"),
 }
 ALL = ["C%02d" % i for i in range(1, 21)]
